@@ -3,7 +3,8 @@
 From Coq Require Import ZArith List Bool Lia.
 Import ListNotations.
 Require Import Verif.lib.PyLite Verif.gen.BananaGen Verif.gen.NegotiateGen Verif.lib.Token Verif.lib.Recv Verif.lib.RecvProofs
-               Verif.lib.BananaRecv Verif.lib.BananaRecvProofs Verif.lib.Negotiate Verif.lib.NegotiateProofs.
+               Verif.lib.BananaRecv Verif.lib.BananaRecvProofs Verif.lib.Negotiate Verif.lib.NegotiateProofs
+               Verif.lib.OpenerBase Verif.gen.OpenerGen Verif.lib.OpenerProofs.
 Local Open Scope Z_scope.
 
 Section Generic.
@@ -70,3 +71,27 @@ Print Assumptions C11_taster_respects_limit.
 Theorem C11_negotiation_cap : forall n, header_refused n = true <-> 4096 < n.
 Proof. exact header_cap_4096. Qed.
 Print Assumptions C11_negotiation_cap.
+
+(* Index tokens (the strings after an OPEN) are judged by the ROOT unslicer, not by the schema: on a Broker the first is
+   bounded by the longest opentype string and the class name after OPEN copyable by the longest registered Copyable name;
+   on the plain root every index token is bounded by the larger of the two.  (openerCheckToken of both roots is translated
+   from broker.py / slicers/root.py on every run; a second index token is awaited only after "copyable".) *)
+Theorem C11_pb_first_index_token_bounded : forall mi lg size,
+  pb_opener_accepts mi lg [] tok_STRING size = true -> size <= mi.
+Proof. exact pb_first_index_bounded. Qed.
+
+Theorem C11_pb_copyable_classname_bounded : forall mi lg size,
+  pb_opener_accepts mi lg [copyable_name] tok_STRING size = true -> size <= lg.
+Proof. exact pb_classname_bounded. Qed.
+
+Theorem C11_root_index_tokens_bounded : forall mi lg ot size,
+  root_opener_accepts mi lg ot tok_STRING size = true -> size <= Z.max mi lg.
+Proof. exact root_index_bounded. Qed.
+
+Theorem C11_index_positions : open_waits_only_for_copyable_name = true.
+Proof. exact second_index_only_after_copyable. Qed.
+
+Print Assumptions C11_pb_first_index_token_bounded.
+Print Assumptions C11_pb_copyable_classname_bounded.
+Print Assumptions C11_root_index_tokens_bounded.
+Print Assumptions C11_index_positions.
